@@ -22,6 +22,7 @@ ASSUMPTIONS = ["X2: the spinlock primitives are a correct test-and-set lock", "C
 RULES_DOC = dict(common.SHARED_DOC)
 RULES_DOC["X4"] = common.X4_DOC
 RULES_DOC["R10"] = "= C05.R1: a condition wait releases the mutex through ABTI_mutex_unlock, enqueues, and re-acquires through ABTI_mutex_lock (the recursive-mutex bookkeeping is kept across a wait); error paths return holding the mutex"
+RULES_DOC["R11"] = "the identity compared with owner_id is the calling work unit: ABTI_self_get_thread_id returns the stream's current work unit (ABTI_xstream::p_thread), or a per-OS-thread address for an external thread -- never something several work units share (two ULTs of one stream must not both look like the owner of a recursive mutex)"
 RULES_DOC.update({
     "R1": "unlock_no_recursion: release(lock) before broadcast, both inside the waiter_lock section",
     "R2": "lock_no_recursion: enqueue only after acquire(waiter_lock) and a failed re-try of the mutex word in the same section; returns only after a successful try with waiter_lock released",
@@ -499,6 +500,26 @@ def rule_R9(P, rep):
                (len(checked), [F.loc(i) for b, i in unchecked]), loc="%s:%d" % (F.file, F.line), site=fn + "/classification")
 
 
+def rule_R11(P, rep):
+    F = P.fn("ABTI_self_get_thread_id", "src/include/abti_self.h")
+    sel = seq.Sel(conds=lambda t: t.startswith("ABTI_local_get_xstream_or_null("), rets=True, canon=True, locks=False)
+    n = 0
+    for toks, kind, rv, rtxt in seq.sequences(F, sel):
+        if kind != "ret":
+            continue
+        n += 1
+        on_stream = not any(t[0] == "if" and not t[2] for t in toks)
+        if on_stream:
+            ok = (rtxt or "").endswith("ABTI_xstream::p_thread")
+            why = "on an execution stream the id is `%s`, not the current work unit" % rtxt
+        else:
+            ok = "ABTI_local_get_local_ptr(" in (rtxt or "")
+            why = "for an external thread the id is `%s`" % rtxt
+        rep.ob("R11", "ABTI_self_get_thread_id identifies the calling work unit (%s)" % ("on a stream" if on_stream else "external thread"),
+               ok, why, loc="%s:%d" % (F.file, F.line), site="self_get_thread_id/%s" % ("stream" if on_stream else "ext"))
+    rep.need(n >= 1, "ABTI_self_get_thread_id: no returning path")
+
+
 def run(P, rep, tier):
     common.rule_X4(P, rep)
     v = P.variant
@@ -513,5 +534,6 @@ def run(P, rep, tier):
     rule_R7(P, rep, simple)
     rule_R8(P, rep)
     rule_R9(P, rep)
+    rule_R11(P, rep)
     from . import C05        # lazy: C05 imports helpers of this module
     common.borrow(rep, P, C05.rule_R1, "R10")
